@@ -633,9 +633,6 @@ Definition in_scope (r : route) : bool :=
   forallb (fun a => negb (akind_eqb (la_kind a) KUnknown)) (r_attrs r)
   && forallb (fun a => match la_alias a with ANonStr => false | _ => true end) (r_attrs r)
   && forallb (fun a => match la_kind a with KRoute | KSecurity => negb (is_nil (la_value a)) | _ => true end) (r_attrs r)
-  && forallb (fun a => match la_kind a, la_alias a with
-                       | (KMethod | KRoute | KSecurity | KBody), (AStr _ | ANonStr) => false
-                       | _, _ => true end) (r_attrs r)
   && nodupb (fnames r)
   && forallb (fun p => negb (is_nil (fp_name p))) (r_params r)
   && forallb (fun a => match find_param (la_value a) r with Some p => negb (is_ctx p) | None => true end) (param_attrs r).
@@ -657,10 +654,9 @@ Definition loose_param (k : akind) (p : fparam) : bool :=
   match fp_base p with TAny | TErrorT | TNonPrimAlias | TMap => true | _ => false end
   || (match fp_shape p with SPtrSlice => true | _ => false end && negb (akind_eqb k KQuery)).
 Definition sx_loose_type (r : route) : bool :=                                          (* e *)
-  existsb (fun a => is_nonpath_kind (la_kind a) || akind_eqb (la_kind a) KPath)
-          (filter (fun a => negb (akind_eqb (la_kind a) KBody)
-                            && match find_param (la_value a) r with Some p => loose_param (la_kind a) p | None => false end)
-                  (param_attrs r)).
+  existsb (fun a => negb (akind_eqb (la_kind a) KBody)
+                    && match find_param (la_value a) r with Some p => loose_param (la_kind a) p | None => false end)
+          (param_attrs r).
 Definition sx_blank_value (r : route) : bool :=                                         (* f *)
   existsb (fun a => is_nonpath_kind (la_kind a) && negb (is_nil (la_value a)) && is_blank (la_value a)) (r_attrs r).
 
@@ -727,49 +723,49 @@ Definition prop_C10_cmd (any_error_diag exit_failed routes_untouched spec_untouc
 
 (* ---------------------------------------------------------------- examples used by the proofs *)
 
-Definition A (k : akind) (v : string) : lattr := {| la_kind := k; la_value := s v; la_alias := ANone |}.
-Definition AA (k : akind) (v al : string) : lattr := {| la_kind := k; la_value := s v; la_alias := AStr (s al) |}.
-Definition P (n : string) (b : tbase) (sh : tshape) : fparam := {| fp_name := s n; fp_base := b; fp_shape := sh |}.
-Definition R (pre : string) (attrs : list lattr) (ps : list fparam) (rets : list rclass) : route :=
+Definition mkA (k : akind) (v : string) : lattr := {| la_kind := k; la_value := s v; la_alias := ANone |}.
+Definition mkAA (k : akind) (v al : string) : lattr := {| la_kind := k; la_value := s v; la_alias := AStr (s al) |}.
+Definition mkP (n : string) (b : tbase) (sh : tshape) : fparam := {| fp_name := s n; fp_base := b; fp_shape := sh |}.
+Definition mkR (pre : string) (attrs : list lattr) (ps : list fparam) (rets : list rclass) : route :=
   {| r_prefix := s pre; r_attrs := attrs; r_params := ps; r_rets := rets |}.
 
 (* a well-linked route with every kind of annotation *)
 Definition demo_ok : route :=
-  R "/c" [A KMethod "POST"; A KRoute "/items/{id}/{sub}"; A KPath "id"; AA KPath "s2" "sub";
-          A KQuery "q"; AA KHeader "h" "X-H"; A KBody "b"; A KSecurity "sec1"]
-    [P "ctx" TContext SPlain; P "id" TPrim SPlain; P "s2" TEnum SPtr; P "q" TPrimAlias SSlice;
-     P "h" TPrim SPlain; P "b" TStruct SPlain]
+  mkR "/c" [mkA KMethod "POST"; mkA KRoute "/items/{id}/{sub}"; mkA KPath "id"; mkAA KPath "s2" "sub";
+          mkA KQuery "q"; mkAA KHeader "h" "X-H"; mkA KBody "b"; mkA KSecurity "sec1"]
+    [mkP "ctx" TContext SPlain; mkP "id" TPrim SPlain; mkP "s2" TEnum SPtr; mkP "q" TPrimAlias SSlice;
+     mkP "h" TPrim SPlain; mkP "b" TStruct SPlain]
     [RPlain; RError].
 
 (* F6 (a): parameter in the controller prefix *)
 Definition demo_prefix : route :=
-  R "/users/{tenant}" [A KMethod "GET"; A KRoute "/plain"] [] [RError].
+  mkR "/users/{tenant}" [mkA KMethod "GET"; mkA KRoute "/plain"] [] [RError].
 (* F6 (b): @Path without alias whose name is not in the method route *)
 Definition demo_bare_path : route :=
-  R "/c" [A KMethod "GET"; A KRoute "/plain"; A KPath "id"] [P "id" TPrim SPlain] [RError].
+  mkR "/c" [mkA KMethod "GET"; mkA KRoute "/plain"; mkA KPath "id"] [mkP "id" TPrim SPlain] [RError].
 (* (c): two @Route annotations: the outputs use the first, the link validator the last *)
 Definition demo_two_routes : route :=
-  R "/c" [A KMethod "GET"; A KRoute "/two/{x}"; A KRoute "/twob"] [] [RError].
+  mkR "/c" [mkA KMethod "GET"; mkA KRoute "/two/{x}"; mkA KRoute "/twob"] [] [RError].
 (* (d): an alias equal to another @Path's bare name *)
 Definition demo_alias_shadow : route :=
-  R "/c" [A KMethod "GET"; A KRoute "/a/{x}"; AA KPath "a" "x"; A KPath "x"]
-    [P "a" TPrim SPlain; P "x" TPrim SPlain] [RError].
+  mkR "/c" [mkA KMethod "GET"; mkA KRoute "/a/{x}"; mkAA KPath "a" "x"; mkA KPath "x"]
+    [mkP "a" TPrim SPlain; mkP "x" TPrim SPlain] [RError].
 (* (e): a map / a struct alias / a pointer to a slice in a header *)
 Definition demo_loose_type : route :=
-  R "/c" [A KMethod "GET"; A KRoute "/m"; A KQuery "m"; A KHeader "h"]
-    [P "m" TMap SPlain; P "h" TPrim SPtrSlice] [RError].
+  mkR "/c" [mkA KMethod "GET"; mkA KRoute "/m"; mkA KQuery "m"; mkA KHeader "h"]
+    [mkP "m" TMap SPlain; mkP "h" TPrim SPtrSlice] [RError].
 (* (f): an annotation whose value is a blank *)
 Definition demo_blank : route :=
-  R "/c" [A KMethod "GET"; A KRoute "/b"; A KQuery " "] [] [RError].
+  mkR "/c" [mkA KMethod "GET"; mkA KRoute "/b"; mkA KQuery " "] [] [RError].
 
 (* well linked but rejected *)
 Definition demo_value_clash : route :=
-  R "/c" [A KMethod "POST"; A KRoute "/s"; A KSecurity "key"; A KHeader "key"] [P "key" TPrim SPlain] [RError].
+  mkR "/c" [mkA KMethod "POST"; mkA KRoute "/s"; mkA KSecurity "key"; mkA KHeader "key"] [mkP "key" TPrim SPlain] [RError].
 Definition demo_empty_alias : route :=
-  R "/c" [A KMethod "GET"; A KRoute "/e/{id}"; AA KPath "id" ""] [P "id" TPrim SPlain] [RError].
+  mkR "/c" [mkA KMethod "GET"; mkA KRoute "/e/{id}"; mkAA KPath "id" ""] [mkP "id" TPrim SPlain] [RError].
 Definition demo_primitive_body : route :=
-  R "/c" [A KMethod "POST"; A KRoute "/pb"; A KBody "b"] [P "b" TPrim SPlain] [RError].
+  mkR "/c" [mkA KMethod "POST"; mkA KRoute "/pb"; mkA KBody "b"] [mkP "b" TPrim SPlain] [RError].
 Definition demo_alias_ptr_slice : route :=
-  R "/c" [A KMethod "GET"; A KRoute "/ps"; A KQuery "q"] [P "q" TPrimAlias SPtrSlice] [RError].
+  mkR "/c" [mkA KMethod "GET"; mkA KRoute "/ps"; mkA KQuery "q"] [mkP "q" TPrimAlias SPtrSlice] [RError].
 Definition demo_foreign_error : route :=
-  R "/c" [A KMethod "GET"; A KRoute "/fe"] [] [RForeignEmbeds].
+  mkR "/c" [mkA KMethod "GET"; mkA KRoute "/fe"] [] [RForeignEmbeds].
